@@ -761,9 +761,12 @@ package genetics
 //@ pred sensorNode(n *network.NNode) = n.NeuronType == network.InputNeuron || n.NeuronType == network.BiasNeuron
 //@ pred linkIs(gn *Gene, a *network.NNode, b *network.NNode, rec bool) = gn.Link.InNode.Id == a.Id && gn.Link.OutNode.Id == b.Id && gn.Link.IsRecurrent == rec
 //@ func (*Genome).mutateAddLink
-//@   props C05 C01
+//@   props C05 C01 C03
 //@   mode nosafety
 //@   assume_pre Intn
+//@   assert [novelNumber] !innovationFound ==> sel(gIssued, arg1.InnovationNum) && !sel(old(gIssued), arg1.InnovationNum) @ before 1 geneInsert
+//@   assert [matchedNumber] innovationFound ==> arg1.InnovationNum == inn.InnovationNum && inn.InNodeId == node1.Id && inn.OutNodeId == node2.Id && inn.IsRecurrent == doRecur @ before 1 geneInsert
+//@   assert [newGene] arg1 != nil && fresh(arg1) && arg1.Link.InNode == node1 && arg1.Link.OutNode == node2 && arg1.Link.IsRecurrent == doRecur && arg1.IsEnabled @ before 1 geneInsert
 //@   requires genomeShape(g) && !isNilIface(innovations) && opts != nil
 //@   requires [nonModular] endpointsInNodes(g) && len(g.ControlGenes) == 0
 //@   ensures [oneGene] result0 && result1 == nil ==> len(g.Genes) == old(len(g.Genes)) + 1
